@@ -158,14 +158,7 @@ func VpsSpsPpsSeqHeader2Annexb(payload []byte) ([]byte, error) {
 	if err != nil {
 		return nil, err
 	}
-	var ret []byte
-	ret = append(ret, NaluStartCode4...)
-	ret = append(ret, vps...)
-	ret = append(ret, NaluStartCode4...)
-	ret = append(ret, sps...)
-	ret = append(ret, NaluStartCode4...)
-	ret = append(ret, pps...)
-	return ret, nil
+	return seqHeader2Annexb(payload, vps, sps, pps), nil
 }
 
 func VpsSpsPpsEnhancedSeqHeader2Annexb(payload []byte) ([]byte, error) {
@@ -173,14 +166,26 @@ func VpsSpsPpsEnhancedSeqHeader2Annexb(payload []byte) ([]byte, error) {
 	if err != nil {
 		return nil, err
 	}
+	return seqHeader2Annexb(payload, vps, sps, pps), nil
+}
+
+// seqHeader2Annexb
+//
+// record中同一类型存在多个vps、sps、pps时，全部输出
+func seqHeader2Annexb(payload []byte, vps, sps, pps []byte) []byte {
+	vpsList, spsList, ppsList, err := parseVpsSpsPpsListFromRecord(payload)
+	if err != nil {
+		// seq header中存放的不是record（见 StrategyTryAnnexbWhenParseVspFromSeqHeaderFailed ）
+		vpsList, spsList, ppsList = [][]byte{vps}, [][]byte{sps}, [][]byte{pps}
+	}
 	var ret []byte
-	ret = append(ret, NaluStartCode4...)
-	ret = append(ret, vps...)
-	ret = append(ret, NaluStartCode4...)
-	ret = append(ret, sps...)
-	ret = append(ret, NaluStartCode4...)
-	ret = append(ret, pps...)
-	return ret, nil
+	for _, list := range [][][]byte{vpsList, spsList, ppsList} {
+		for _, nalu := range list {
+			ret = append(ret, NaluStartCode4...)
+			ret = append(ret, nalu...)
+		}
+	}
+	return ret
 }
 
 func BuildVpsSpsPps2Annexb(vps, sps, pps []byte) ([]byte, error) {
@@ -301,64 +306,65 @@ func parseVpsSpsPpsAnnexbFromRecord(payload []byte) (vps, sps, pps []byte, err e
 }
 
 func parseVpsSpsPpsFromRecord(payload []byte) (vps, sps, pps []byte, err error) {
-	// 5字节头部 + 22字节HEVCDecoderConfigurationRecord固定部分 + numOfArrays + 首个array的头部(1+2+2)
-	if len(payload) < 33 {
+	vpsList, spsList, ppsList, err := parseVpsSpsPpsListFromRecord(payload)
+	if err != nil {
+		return nil, nil, nil, err
+	}
+	// 同一类型存在多个时，返回第一个
+	return vpsList[0], spsList[0], ppsList[0], nil
+}
+
+// parseVpsSpsPpsListFromRecord
+//
+// ISO_IEC_14496-15 8.3.3.1.2 HEVCDecoderConfigurationRecord:
+// array的个数、顺序不固定（VPS、SPS、PPS、SEI的顺序只是建议），每个array可以包含多个nalu
+//
+// @return vpsList, spsList, ppsList: 复用传入参数`payload`的内存块，每个list至少包含一个元素
+func parseVpsSpsPpsListFromRecord(payload []byte) (vpsList, spsList, ppsList [][]byte, err error) {
+	// 5字节头部 + 22字节HEVCDecoderConfigurationRecord固定部分 + numOfArrays
+	if len(payload) < 28 {
 		return nil, nil, nil, nazaerrors.Wrap(base.ErrShortBuffer)
 	}
 
 	index := 27
-	if numOfArrays := payload[index]; numOfArrays != 3 && numOfArrays != 4 {
-		return nil, nil, nil, nazaerrors.Wrap(base.ErrHevc)
-	}
+	numOfArrays := int(payload[index])
 	index++
 
-	// 注意，seq header中，是最后6个字节而不是中间6个字节
-	if payload[index]&0x3f != NaluTypeVps {
-		return nil, nil, nil, nazaerrors.Wrap(base.ErrHevc)
-	}
-	if numNalus := int(bele.BeUint16(payload[index+1:])); numNalus != 1 {
-		return nil, nil, nil, nazaerrors.Wrap(base.ErrHevc)
-	}
-	vpsLen := int(bele.BeUint16(payload[index+3:]))
+	for i := 0; i < numOfArrays; i++ {
+		if len(payload) < index+3 {
+			return nil, nil, nil, nazaerrors.Wrap(base.ErrHevc)
+		}
+		// 注意，seq header中，是最后6个字节而不是中间6个字节
+		naluType := payload[index] & 0x3f
+		numNalus := int(bele.BeUint16(payload[index+1:]))
+		index += 3
 
-	if len(payload) < 33+vpsLen {
-		return nil, nil, nil, nazaerrors.Wrap(base.ErrHevc)
+		for j := 0; j < numNalus; j++ {
+			if len(payload) < index+2 {
+				return nil, nil, nil, nazaerrors.Wrap(base.ErrHevc)
+			}
+			naluLen := int(bele.BeUint16(payload[index:]))
+			index += 2
+			if len(payload) < index+naluLen {
+				return nil, nil, nil, nazaerrors.Wrap(base.ErrHevc)
+			}
+			nalu := payload[index : index+naluLen]
+			index += naluLen
+
+			switch naluType {
+			case NaluTypeVps:
+				vpsList = append(vpsList, nalu)
+			case NaluTypeSps:
+				spsList = append(spsList, nalu)
+			case NaluTypePps:
+				ppsList = append(ppsList, nalu)
+			}
+		}
 	}
 
-	vps = payload[index+5 : index+5+vpsLen]
-	index += 5 + vpsLen
-
-	if len(payload) < 38+vpsLen {
+	if len(vpsList) == 0 || len(spsList) == 0 || len(ppsList) == 0 {
 		return nil, nil, nil, nazaerrors.Wrap(base.ErrHevc)
 	}
-	if payload[index]&0x3f != NaluTypeSps {
-		return nil, nil, nil, nazaerrors.Wrap(base.ErrHevc)
-	}
-	if numNalus := int(bele.BeUint16(payload[index+1:])); numNalus != 1 {
-		return nil, nil, nil, nazaerrors.Wrap(base.ErrHevc)
-	}
-	spsLen := int(bele.BeUint16(payload[index+3:]))
-	if len(payload) < 38+vpsLen+spsLen {
-		return nil, nil, nil, nazaerrors.Wrap(base.ErrHevc)
-	}
-	sps = payload[index+5 : index+5+spsLen]
-	index += 5 + spsLen
-
-	if len(payload) < 43+vpsLen+spsLen {
-		return nil, nil, nil, nazaerrors.Wrap(base.ErrHevc)
-	}
-	if payload[index]&0x3f != NaluTypePps {
-		return nil, nil, nil, nazaerrors.Wrap(base.ErrHevc)
-	}
-	if numNalus := int(bele.BeUint16(payload[index+1:])); numNalus != 1 {
-		return nil, nil, nil, nazaerrors.Wrap(base.ErrHevc)
-	}
-	ppsLen := int(bele.BeUint16(payload[index+3:]))
-	if len(payload) < 43+vpsLen+spsLen+ppsLen {
-		return nil, nil, nil, nazaerrors.Wrap(base.ErrHevc)
-	}
-	pps = payload[index+5 : index+5+ppsLen]
-
 	return
 }
 
